@@ -32,10 +32,13 @@ type autoInv struct {
 	phi  *ssa.Phi
 	name string
 	mk   func(t string) string
+	lim  string // "<=limit" invariants: the limit term (phi + step <= lim), "" otherwise
+	step *big.Int
 }
 
 // Frame is one activation (top-level function under verification, or an inlined callee).
 type Frame struct {
+	closureBinds map[string]TV // captured variables for the next applyContract (modular call of a closure)
 	entryReach string // reach right after the requires clauses (used by `option loop-cut-<k>`)
 	hintApplied map[int]bool // `assert before` clauses that met their call site
 	ghostSet   map[string]bool // ghost globals the call being applied may change (applyMods)
@@ -1025,6 +1028,17 @@ func (fr *Frame) typeAssert(st *State, in *ssa.TypeAssert) Val {
 		// if the static source type already implements the target, assertion succeeds iff non-nil
 		if types.Implements(in.X.Type(), under(in.AssertedType).(*types.Interface)) {
 			vc.assert(eq(okv, not(eq(x, "0"))))
+		}
+		// Go semantics of x.(I): the assertion succeeds iff x is non-nil and its dynamic type implements I. For every
+		// concrete type whose tag is known to this VC the answer is static (types.Implements), so it is stated.
+		vc.ifaceAsserts = append(vc.ifaceAsserts, ifaceAssert{x: x, ok: okv, iface: under(in.AssertedType).(*types.Interface)})
+		var tks []string
+		for k := range vc.tagTypes {
+			tks = append(tks, k)
+		}
+		sort.Strings(tks)
+		for _, k := range tks {
+			vc.ifaceAssertFact(vc.ifaceAsserts[len(vc.ifaceAsserts)-1], vc.typeTags[k], vc.tagTypes[k])
 		}
 		if in.CommaOk {
 			return &StructV{F: []Val{Scalar{ite(okv, x, "0"), "Int"}, Scalar{okv, "Bool"}}}
